@@ -174,6 +174,8 @@ func c13exec(c *h.Ctx, cs *h.Case) {
 	var members [][]int // current roster: key indices per member
 	var roster *onet.Roster
 	var objs []*c13obj
+	var reuseTok *onet.Token
+	var reuseFields [6]string
 	full := strings.HasPrefix(cs.Class, "witness") || strings.HasPrefix(cs.Class, "full")
 	bad := func() { cs.Impl = append(cs.Impl, "bad-op") }
 	nondet := func(kind, what string) {
@@ -391,12 +393,52 @@ func c13exec(c *h.Ctx, cs *h.Case) {
 			}
 			tok := &onet.Token{RosterID: onet.RosterID(u[0]), TreeID: onet.TreeID(u[1]), ProtoID: onet.ProtocolID(u[2]),
 				ServiceID: onet.ServiceID(u[3]), RoundID: onet.RoundID(u[4]), TreeNodeID: onet.TreeNodeID(u[5])}
-			id := tok.ID().String()
+			fresh := tok.ID().String()
+			id := fresh
 			if tok.Clone().ID().String() != id || tok.ID().String() != id {
 				nondet("token", "a token's id changes between calls / for a clone")
 			}
 			if tok.ChangeTreeNodeID(onet.TreeNodeID(u[5])).ID().String() != id {
 				nondet("token", "ChangeTreeNodeID to the same node changes the id")
+			}
+			// the identifier is a function of the six fields, not of the object's history: the
+			// token object of the previous op (whose ID was already asked for), a clone of it and a
+			// ChangeTreeNodeID copy of it are given this op's fields and asked again
+			assign := func(t *onet.Token) {
+				t.RosterID, t.TreeID, t.ProtoID = onet.RosterID(u[0]), onet.TreeID(u[1]), onet.ProtocolID(u[2])
+				t.ServiceID, t.RoundID, t.TreeNodeID = onet.ServiceID(u[3]), onet.RoundID(u[4]), onet.TreeNodeID(u[5])
+			}
+			if reuseTok != nil {
+				var changed []string
+				for i, f := range []string{"roster", "tree", "proto", "service", "round", "node"} {
+					if tk[2+i] != reuseFields[i] {
+						changed = append(changed, f)
+					}
+				}
+				what := strings.Join(changed, "+")
+				cl := reuseTok.Clone()
+				cl.ID()
+				viaNode := reuseTok.ChangeTreeNodeID(onet.TreeNodeID(u[5]))
+				assign(viaNode)
+				assign(cl)
+				assign(reuseTok)
+				id = reuseTok.ID().String() // observed on the re-used object
+				if id != fresh {
+					cs.Fail("token-id-stale:"+what, "a token whose fields ("+what+") were assigned after ID() had been called keeps its old id "+id+"; a fresh token with the same fields has "+fresh)
+				}
+				if cl.ID().String() != fresh {
+					cs.Fail("token-id-stale-clone:"+what, "a Clone() whose fields ("+what+") were assigned has another id than a fresh token with the same fields")
+				}
+				if viaNode.ID().String() != fresh {
+					cs.Fail("token-id-stale-changenode:"+what, "a ChangeTreeNodeID copy whose fields were assigned has another id than a fresh token with the same fields")
+				}
+			} else {
+				reuseTok = &onet.Token{}
+				assign(reuseTok)
+				reuseTok.ID()
+			}
+			for i := 0; i < 6; i++ {
+				reuseFields[i] = tk[2+i]
 			}
 			o := &c13obj{kind: "token", id: id}
 			for i := 0; i < 6; i++ {
@@ -725,6 +767,33 @@ func c13gen(c *h.Ctx, yield func(*h.Case)) {
 			}
 		}
 		emit("all-shapes mixed sizes", ops...)
+	}
+	// --- every shape with every placement over FEWER servers than nodes (servers repeat): the tree
+	// id must still separate trees whose pre-order (key, leaf) sequences differ ----------------------
+	for k := 1; k <= c.Pick(2, 3); k++ {
+		maxNodes := c.Pick(4, 5)
+		if k == 3 {
+			maxNodes = 4
+		}
+		ops := []string{edKeys(k), idRoster(k)}
+		for n := 1; n <= maxNodes; n++ {
+			total := 1
+			for i := 0; i < n; i++ {
+				total *= k
+			}
+			for _, sh := range c13trees(n, memo) {
+				for code := 0; code < total; code++ {
+					p := make([]int, n)
+					x := code
+					for i := range p {
+						p[i] = x % k
+						x /= k
+					}
+					ops = append(ops, c13treeOp(sh, p))
+				}
+			}
+		}
+		emit(fmt.Sprintf("repeated-members k=%d", k), ops...)
 	}
 	// --- larger random trees, servers may repeat; same tree under several rosters ---------------
 	for i := 0; i < c.Pick(150, 3000); i++ {
